@@ -12,6 +12,8 @@ Model driver for C02 (functions, closures, generators). One request per line:
 * `prologue <def>` — the unpack instructions of the function prologue
 * `cap <ex>*` — closures (Model/Capture.lean parts A–C): `impl=<r> spec=<r> shaped=<0|1>`
 * `acc <ex>` — for a function literal: `accessed=(…) free=(…)`
+* `capx <x>*` — wider syntax (Model/CaptureX.lean): for every function literal in post-order
+  `a=(accessed) f=(declaratively free)`, separated by ` ; `
 * `share <op>*` — captured containers / defaults (part D): the output trace
 * `gen <env> <body> <consumer>` — generators (Model/Gen.lean): the interleaved trace
 -/
@@ -19,6 +21,7 @@ import KotoVerif.Common.Proto
 import KotoVerif.Common.ValueIO
 import KotoVerif.Model.Bind
 import KotoVerif.Model.Capture
+import KotoVerif.Model.CaptureX
 import KotoVerif.Model.Gen
 
 open KotoVerif KotoVerif.Proto KotoVerif.ValueIO
@@ -170,6 +173,48 @@ def handleAcc (e : Sexp) : String :=
   | some (.fn ps body) => s!"accessed={namesStr (accessed ps body)} free={namesStr (freeVars ps body)}"
   | _ => "bad-request"
 
+/-! ### capx -/
+open KotoVerif.CaptureX in
+def parseXT : Sexp → Option XT
+  | .list [.atom "id", x] => x.nat?.map XT.id
+  | .list [.atom "short", x] => x.nat?.map XT.short
+  | .list [.atom "as", x] => x.nat?.map XT.as
+  | _ => none
+
+open KotoVerif.CaptureX in
+partial def parseX : Sexp → Option X
+  | .list [.atom "lit"] => some .lit
+  | .list [.atom "var", x] => x.nat?.map X.var
+  | .list [.atom "op", a, b] => do pure (.op (← parseX a) (← parseX b))
+  | .list [.atom "par", e] => (parseX e).map X.par
+  | .list [.atom "ite", c, t, e] => do pure (.ite (← parseX c) (← parseX t) (← parseX e))
+  | .list (.atom "str" :: es) => (es.mapM parseX).map X.str
+  | .list (.atom "tup" :: es) => (es.mapM parseX).map X.tup
+  | .list [.atom "asg", x, e] => do pure (.asg (← x.nat?) (← parseX e))
+  | .list [.atom "masg", .list ts, .list es] => do pure (.masg (← ts.mapM parseXT) (← es.mapM parseX))
+  | .list [.atom "fn", .list ps, .list body] => do pure (.fn (← ps.mapM Sexp.nat?) (← body.mapM parseX))
+  | .list (.atom "call" :: g :: args) => do pure (.call (← g.nat?) (← args.mapM parseX))
+  | .list [.atom "ifb", c, .list t, .list e] => do pure (.ifb (← parseX c) (← t.mapM parseX) (← e.mapM parseX))
+  | .list [.atom "for", v, it, .list body] => do pure (.forb (← v.nat?) (← parseX it) (← body.mapM parseX))
+  | .list [.atom "while", c, .list body] => do pure (.whileb (← parseX c) (← body.mapM parseX))
+  | .list [.atom "switch", .list arms, els] => do pure (.switchb (← arms.mapM parseX) (← parseX els))
+  | .list [.atom "sarm", c, e] => do pure (.sarm (← parseX c) (← parseX e))
+  | .list [.atom "match", subj, .list arms, els] => do
+    pure (.matchb (← parseX subj) (← arms.mapM parseX) (← parseX els))
+  | .list [.atom "marm", p, g, e] => do
+    let pat ← match p with | .atom "-" => some none | x => x.nat?.map some
+    let guard ← match g with | .atom "-" => some none | x => (parseX x).map some
+    pure (.marm pat guard (← parseX e))
+  | .list [.atom "yield", e] => (parseX e).map X.yld
+  | _ => none
+
+open KotoVerif.CaptureX in
+def handleCapx (es : List Sexp) : String :=
+  match es.mapM parseX with
+  | none => "bad-request"
+  | some script =>
+    " ; ".intercalate ((fnsOfList script).map (fun (a, f) => s!"a={namesStr a} f={namesStr f}"))
+
 /-! ### share -/
 open KotoVerif.Capture in
 def parseBOp : Sexp → Option BOp
@@ -296,6 +341,7 @@ def handle (line : String) : String :=
     | some (d, _, _) => " ".intercalate ((Bind.prologue d).map uinstrStr) ++ s!" tb={Bind.tempBase d}"
     | none => "bad-request")
   | .atom "cap" :: es => handleCap es
+  | .atom "capx" :: es => handleCapx es
   | [.atom "acc", e] => handleAcc e
   | .atom "share" :: ops => handleShare ops
   | [.atom "gen", env, body, cons] => handleGen env body cons
